@@ -819,6 +819,21 @@ class Sim:
                 t._real.join(5.0)
                 if t._real.is_alive():
                     raise HarnessError(f"thread {t.name} did not exit")
+        # a thread torn down inside a commit leaves its connection in a transaction and the
+        # traceback keeps it alive: roll back and close whatever the run left open (pynenc
+        # opens a fresh connection per operation, nothing is cached)
+        for t in self.threads:
+            if isinstance(t.exc, (SimAbort, SimCrash)):
+                t.exc = type(t.exc)()
+        for a in self.actors.values():
+            for r in list(a.conns):
+                c = r()
+                if c is not None:
+                    try:
+                        c._crash_close()
+                    except Exception:  # noqa: BLE001
+                        pass
+            a.conns = []
 
     def flush_deferred(self) -> None:
         """Sequential engine: run the deferred background threads now."""
